@@ -1,0 +1,11 @@
+//go:build verif
+
+package logic
+
+import "net/http"
+
+// VerifServeHls exposes the HLS entry point (simple-auth on playlists, IP black-list, file server)
+// that RunLoop registers with the HTTP mux, so that a test can call it without a listening socket.
+func (sm *ServerManager) VerifServeHls(writer http.ResponseWriter, req *http.Request) {
+	sm.serveHls(writer, req)
+}
